@@ -469,6 +469,13 @@ pub fn cases(target: &str, thorough: bool, seed: u64) -> Vec<Case> {
                 raw.push((format!("json/nest[{}-open", d), nested(b"[", b"", b"", d, b"", b"")));
                 raw.push((format!("json/nest{{{}", d), nested(b"{\"a\":", b"1", b"}", d, b"", b"")));
                 raw.push((format!("json/nest{{{}-open", d), nested(b"{\"a\":", b"", b"", d, b"", b"")));
+                // staircases: every level holds a complete sibling value before the nested container, so a depth counter
+                // that a completed value disturbs drifts by one per level (seeded C03-M)
+                for (name, open) in [("[],", &b"[[],"[..]), ("[ ],", b"[[ ],"), ("{},", b"[{},"), ("1,", b"[1,"), ("\"\",", b"[\"\","), ("[[]],", b"[[[]],"), ("obj[]", b"{\"a\":[],\"b\":"), ("obj{}", b"{\"a\":{},\"b\":")] {
+                    let close: &[u8] = if open[0] == b'[' { b"]" } else { b"}" };
+                    raw.push((format!("json/stair({}){}", name, d), nested(open, b"1", close, d, b"", b"")));
+                    raw.push((format!("json/stair({}){}-open", name, d), nested(open, b"", b"", d, b"", b"")));
+                }
             }
         }
         "conf" => {
